@@ -76,6 +76,13 @@ def profile_role(on, was_on, SRT, SDT, tar=0):
     return role
 
 
+def prof_range(x):
+    """a profile entry is an exact value or a (lower, upper) pair"""
+    if isinstance(x, (list, tuple)):
+        return float(x[0]), float(x[1])
+    return float(x), float(x)
+
+
 def point_violations(p, on, v, heat=None, power=None, tol=1e-7, ambiguous=None):
     """clauses of the statement violated by the output vector v (virtual output per step).
 
@@ -94,13 +101,13 @@ def point_violations(p, on, v, heat=None, power=None, tol=1e-7, ambiguous=None):
             continue
         r = role[t]
         if r is not None and r[0] == "start":
-            val = p["start_prof"][r[1]]
-            if abs(v[t] - val) > tol:
-                msgs.append("step %d: start profile step %d requires %g, output %g" % (t, r[1], val, v[t]))
+            lo_, hi_ = prof_range(p["start_prof"][r[1]])
+            if v[t] < lo_ - tol or v[t] > hi_ + tol:
+                msgs.append("step %d: start profile step %d requires [%g,%g], output %g" % (t, r[1], lo_, hi_, v[t]))
         elif r is not None and r[0] == "shut":
-            val = p["shut_prof"][r[1]]
-            if abs(v[t] - val) > tol:
-                msgs.append("step %d: shutdown profile step %d requires %g, output %g" % (t, r[1], val, v[t]))
+            lo_, hi_ = prof_range(p["shut_prof"][r[1]])
+            if v[t] < lo_ - tol or v[t] > hi_ + tol:
+                msgs.append("step %d: shutdown profile step %d requires [%g,%g], output %g" % (t, r[1], lo_, hi_, v[t]))
         else:
             if v[t] < p["min"][t] - tol or v[t] > p["max"][t] + tol:
                 msgs.append("step %d: on but output %g outside [%g,%g]" % (t, v[t], p["min"][t], p["max"][t]))
